@@ -97,3 +97,14 @@ impl Deque {
         }
     }
 }
+
+#[cfg(feature = "verif")]
+impl<T> Buffer<T> {
+    pub(crate) fn verif_len(&self) -> usize {
+        self.slab.len()
+    }
+
+    pub(crate) fn verif_iter(&self) -> impl Iterator<Item = &T> {
+        self.slab.iter().map(|(_, s)| &s.value)
+    }
+}
